@@ -43,7 +43,8 @@ def handle (quirks : List String) (op : String) (args : List String) : String :=
     match parseAll sheet term with
     | some its =>
       let q : NestQuirks := { ampViaUnify := quirks.contains "ampViaUnify",
-                              suffixUnwrapPanics := quirks.contains "suffixUnwrapPanics" }
+                              suffixUnwrapPanics := quirks.contains "suffixUnwrapPanics",
+                              appendIdLastWins := quirks.contains "appendIdLastWins" }
       render q (style == "c") its ++ "\t" ++ render nestSpec (style == "c") its
     | none => "bad-args"
   | _, _ => "bad-op"
